@@ -358,7 +358,9 @@ def check_threshold_optimizer(case):
         to = ThresholdOptimizer(estimator=ScoreColumn(), constraints=case["constraint"], objective=case["objective"],
                                 prefit=case["prefit"], predict_method="predict", grid_size=case["grid_size"], flip=case["flip"])
         X = _X(scores, xkind, plans[2])
-        to.fit(X, gen.wrap_vector(kinds[0], y, plans[0], name=case["yname"]),
+        # labels in {0,1} may arrive as ints, floats or bools (only in the container run; the reference uses ints)
+        cast = {"int": int, "float": float, "bool": bool}[case.get("y_dtype", "int") if kinds[0] != "ndarray" or plans[0] != "default" else "int"]
+        to.fit(X, gen.wrap_vector(kinds[0], [cast(v) for v in y], plans[0], name=case["yname"]),
                sensitive_features=gen.wrap_vector(kinds[1], g, plans[1], name="s"))
         return to, X
 
@@ -414,7 +416,8 @@ def check_reduction(case):
             est = fr.ExponentiatedGradient(ExactTable(), m, eps=0.05, max_iter=8, nu=1e-4, run_linprog_step=case["lp"])
         else:
             est = fr.GridSearch(ExactTable(), m, grid_size=case["grid_size"], constraint_weight=0.5)
-        est.fit(X, gen.wrap_vector(kinds[0], y, plans[0], name="y"), **kw)
+        cast = {"int": int, "float": float, "bool": bool}[case.get("y_dtype", "int") if kinds[0] != "ndarray" or plans[0] != "default" else "int"]
+        est.fit(X, gen.wrap_vector(kinds[0], [cast(v) for v in y], plans[0], name="y"), **kw)
         return est, X
 
     try:
@@ -545,6 +548,7 @@ def _to_cases(draw):
         "plans": [draw(gen.index_plan) for _ in range(4)],
         "x_kind": draw(st.sampled_from(["ndarray", "dataframe"])),
         "yname": draw(st.sampled_from(["lab", "y", "0", "col"])),
+        "y_dtype": draw(st.sampled_from(["int", "int", "float", "bool"])),
         "seed": draw(st.integers(0, 1000)),
         "shift": draw(st.integers(1, 2)),
     }
@@ -561,6 +565,7 @@ def _red_cases(draw):
         "g": g, "y": y,
         "levels": draw(st.lists(st.integers(0, 2), min_size=n, max_size=n)),
         "lp": draw(st.booleans()),
+        "y_dtype": draw(st.sampled_from(["int", "int", "float", "bool"])),
         "grid_size": draw(st.sampled_from([4, 7])),
         "kinds": [draw(gen.vector_kind_pandas_heavy), draw(gen.vector_kind_pandas_heavy)],
         "plans": [draw(gen.index_plan) for _ in range(3)],
